@@ -161,6 +161,9 @@ func c03One(c *run.C, cd *codec.Codec, input []byte, how string, eps []int, r *g
 				sizes = []int{1}
 			case 1:
 				sizes = []int{r.Range(1, 7), r.Range(1, 3), r.Range(1, 64)}
+				if r.P(1, 5) {
+					sizes[1] = 0 // an empty read / write in every cycle
+				}
 			default:
 				sizes = nil // as much as fits
 			}
